@@ -69,6 +69,52 @@ def verify_worker(case):
     return dict(rc=rc, events=[e for e in evs if e["ev"] != "ckpt"], stderr=err, files=files[:12])
 
 
+def strace_kill_worker(case):
+    """A fully real kill: the whole run executes under strace, which delivers SIGKILL at the K-th write()/writev() to the flow weights file (torch.save's C++ zip
+    writer is invisible to Python-level hooks).  The directory left behind is then resumed by a fresh process like every other snapshot."""
+    assert_repo()
+    wd = case["workdir"]
+    shutil.rmtree(wd, ignore_errors=True)
+    os.makedirs(wd)
+    logdir = os.path.join(wd, "log")
+    cfg = dict(sampler="std", model=case["model"], kwargs=case["kwargs"], outdir="run", cwd=wd, logdir=logdir, seg=0, kill_at=0)
+    target = os.path.join(wd, "run", "proposal", "model.pt")
+    env = dict(os.environ)
+    try:
+        p = subprocess.run(["strace", "-f", "-o", os.path.join(wd, "trace.txt"), "-P", target, "-e", "trace=write,writev",
+                            "-e", f"inject=write,writev:signal=KILL:when={case['K']}", "/venv/bin/python", "-m", "vlib.segment_run", json.dumps(cfg)],
+                           capture_output=True, text=True, timeout=case["timeout"], cwd=ROOT, env=env)
+        rc = p.returncode
+    except subprocess.TimeoutExpired:
+        return dict(timeout=True)
+    killed = rc in (-9, 137)
+    size = os.path.getsize(target) if os.path.exists(target) else None
+    old = os.path.getsize(target + ".old") if os.path.exists(target + ".old") else None
+    had_ckpt = os.path.exists(os.path.join(wd, "run", "nested_sampler_resume.pkl"))
+    last_seq = int(open(os.path.join(logdir, "seq")).read()) if os.path.exists(os.path.join(logdir, "seq")) else None
+    if not killed:
+        shutil.rmtree(wd, ignore_errors=True)
+        return dict(killed=False, rc=rc)
+    # resume in a fresh process
+    cfg2 = dict(cfg, seg=1, stop_after_resume_iterations=case["stop_after"], seq_offset=1000, digest_dir=logdir)
+    try:
+        p2 = subprocess.run(["/venv/bin/python", "-m", "vlib.segment_run", json.dumps(cfg2)], capture_output=True, text=True, timeout=case["timeout"], cwd=ROOT)
+        rc2, err = p2.returncode, p2.stderr[-600:]
+    except subprocess.TimeoutExpired:
+        rc2, err = "timeout", ""
+    evs = []
+    lf = os.path.join(logdir, "seg1.jsonl")
+    if os.path.exists(lf):
+        for line in open(lf):
+            try:
+                evs.append(json.loads(line))
+            except json.JSONDecodeError:
+                pass
+    shutil.rmtree(wd, ignore_errors=True)
+    return dict(killed=True, rc=rc2, events=[e for e in evs if e["ev"] != "ckpt"], stderr=err, weights_bytes=size, old_weights_bytes=old, had_checkpoint=had_ckpt, last_seq=last_seq,
+                files=[f"model.pt:{size}", f"model.pt.old:{old}"])
+
+
 def crash_class(m):
     """Mechanism-level name of the crash point (no byte counts, no event indices)."""
     what = m["info"]["what"]
@@ -200,6 +246,37 @@ def main():
                 chk.note_inconclusive(f"{c['driver']}/{m['name']}: {detail}")
                 continue
             chk.violation("C11:" + key, f"driver {c['driver']} crash point {m['name']} (child exit {m['child_exit']}): {detail}", small)
+    # ---- thorough: fully real kills of the weights save with strace-injected SIGKILL (validates the sequential-prefix model of torch.save)
+    if not chk.quick and not chk.replay_case:
+        sk = [dict(model="G2u", kwargs=dict(nlive=50, checkpointing=True, checkpoint_on_iteration=True, checkpoint_interval=40, seed=int(rng_for(chk.seed, "C11strace", K).integers(1, 2**31 - 1))),
+                   K=K, workdir=os.path.join(chk.scratch, f"strace-{K}"), stop_after=50, timeout=600, _timeout=1300) for K in range(1, 16)]
+        sres = run_cases(sk, "checks.c11:strace_kill_worker", chk.scratch, nproc=chk.args.nproc, timeout=1300)
+        sizes = set()
+        for c, r in zip(sk, sres):
+            if r.get("timeout") or "killed" not in r:
+                chk.note_inconclusive(f"strace kill K={c['K']}: {str(r)[:300]}")
+                chk.case_done()
+                continue
+            if not r["killed"]:
+                chk.count("strace_kill_points_beyond_last_write")
+                chk.case_done()
+                continue
+            chk.count("strace_real_kills_resumed")
+            sizes.add(r["weights_bytes"])
+            m = dict(info=dict(what="weights", last_seq=r["last_seq"], prev_exists=r["had_checkpoint"], new_seq=r["last_seq"], prev_seq=None), kind="torch_prefix", event=None)
+            if not r["had_checkpoint"]:
+                m["info"] = dict(what="checkpoint", prev_exists=False, prev_seq=None, new_seq=-1)   # killed before any checkpoint: a fresh start is the documented outcome
+                m["kind"] = "prefix"
+            verdicts = judge(m, r)
+            chk.case_done(ident=("strace", c["K"]), nontrivial=True,
+                          sample=dict(strace_kill_at_write=c["K"], weights_file_bytes_left=r["weights_bytes"], old_weights_bytes=r["old_weights_bytes"], checkpoint_existed=r["had_checkpoint"],
+                                      outcome=[e for e in r["events"] if e["ev"] in ("start",)][:1]) if c["K"] in (5, 8) else None)
+            for key, detail in verdicts:
+                if key == "inconclusive":
+                    chk.note_inconclusive(f"strace K={c['K']}: {detail}")
+                    continue
+                chk.violation("C11:strace-real-kill:" + key, f"SIGKILL injected by strace at write #{c['K']} to model.pt (bytes left {r['weights_bytes']}): {detail}", dict(driver="strace", crash=str(c["K"])))
+        chk.extra["strace_weights_file_sizes_left"] = sorted(s for s in sizes if s is not None)
     chk.extra["crash_classes_and_outcomes"] = {k: sorted(v) for k, v in sorted(classes.items())}
     chk.extra["exhaustive"] = True
     chk.extra["exhaustive_scope"] = ("every audited file-system operation boundary of the targeted checkpoint write and weights save is a crash point (enumerated from a recording pass); "
